@@ -78,7 +78,7 @@ impl MarkdownEventsReader {
                             _ => {
                                 self.push_inline(
                                     DocumentInline::Str(text.to_string()),
-                                    self.to_line_range(range),
+                                    self.to_inline_line_range(range),
                                 );
                                 self.pop_inline();
                             }
@@ -97,7 +97,7 @@ impl MarkdownEventsReader {
                             text: text.to_string(),
                             inline_range: self.to_inline_range(range.clone()),
                         }),
-                        self.to_line_range(range),
+                        self.to_inline_line_range(range),
                     );
                     self.pop_inline();
                 }
@@ -108,7 +108,7 @@ impl MarkdownEventsReader {
                             content: cow_str.to_string(),
                             inline_range: self.to_inline_range(range.clone()),
                         }),
-                        self.to_line_range(range),
+                        self.to_inline_line_range(range),
                     );
                     self.pop_inline();
                 }
@@ -117,7 +117,7 @@ impl MarkdownEventsReader {
                 InlineHtml(text) => {
                     self.push_inline(
                         DocumentInline::Str(text.to_string()),
-                        self.to_line_range(range),
+                        self.to_inline_line_range(range),
                     );
                     self.pop_inline();
                 }
@@ -126,7 +126,7 @@ impl MarkdownEventsReader {
                     if !self.metadata_block && !self.blocks_stack.is_empty() {
                         self.push_inline(
                             DocumentInline::Str(" ".to_string()),
-                            self.to_line_range(range),
+                            self.to_inline_line_range(range),
                         );
                         self.pop_inline();
                     }
@@ -251,7 +251,7 @@ impl MarkdownEventsReader {
                         inlines: vec![],
                         inline_range: self.to_inline_range(range.clone()),
                     }),
-                    self.to_line_range(range),
+                    self.to_inline_line_range(range),
                 );
             }
             Tag::Strong => {
@@ -260,7 +260,7 @@ impl MarkdownEventsReader {
                         inlines: vec![],
                         inline_range: self.to_inline_range(range.clone()),
                     }),
-                    self.to_line_range(range),
+                    self.to_inline_line_range(range),
                 );
             }
             Tag::Strikethrough => {
@@ -269,7 +269,7 @@ impl MarkdownEventsReader {
                         inlines: vec![],
                         inline_range: self.to_inline_range(range.clone()),
                     }),
-                    self.to_line_range(range),
+                    self.to_inline_line_range(range),
                 );
             }
             Tag::Link {
@@ -290,7 +290,7 @@ impl MarkdownEventsReader {
                         inline_range: self.to_inline_range(range.clone()),
                         link_type: to_link_type(link_type),
                     }),
-                    self.to_line_range(range),
+                    self.to_inline_line_range(range),
                 );
             }
             Tag::Image {
@@ -306,7 +306,7 @@ impl MarkdownEventsReader {
                         attr: Default::default(),
                         inline_range: self.to_inline_range(range.clone()),
                     }),
-                    self.to_line_range(range),
+                    self.to_inline_line_range(range),
                 );
             }
             Tag::MetadataBlock(_) => self.metadata_block = true,
@@ -383,6 +383,18 @@ impl MarkdownEventsReader {
             .get(from..to)
             .map(|text| text.encode_utf16().count())
             .unwrap_or(to - from)
+    }
+
+    // lines of an inline: unlike a block, an inline does not end with a line break, so the line
+    // it ends in belongs to it (a link wrapped over two lines covers both)
+    fn to_inline_line_range(&self, range: Range<usize>) -> LineRange {
+        let lines = self.to_line_range(range.clone());
+        if self.line_starts.contains(&range.end) {
+            lines
+        } else {
+            let last = self.to_line_range(range.end..range.end);
+            lines.start..lines.end.max(last.end)
+        }
     }
 
     fn to_line_range(&self, range: Range<usize>) -> LineRange {
